@@ -175,7 +175,7 @@ pub fn generate(prop: &str, master: u64, index: u64, thorough: bool, ctx: &mut R
     for i in 0..len {
         let step = match (preset.as_ref(), plan.ord_bulk) {
             (Some(p), _) => p[i].clone(),
-            (None, Some((n, pat))) if i == 0 && !miri => Step::plain(Op::OBulk { n, pat }),
+            (None, Some((n, pat))) if i == 0 && !miri => Step::plain(if cfg.world == WorldKind::Key { Op::KBulk { n, pat } } else { Op::OBulk { n, pat } }),
             _ => Step::plain(world.gen(&mut r, ctx, len - i)),
         };
         if !world.legal(&step.op) {
